@@ -71,7 +71,8 @@ type acceptResponse struct {
 }
 
 type virtualStreamListener struct {
-	mu          sync.Mutex // Mutex to protect access to the channels
+	mu          sync.Mutex     // Mutex to protect access to the channels
+	inFlight    sync.WaitGroup // The AcceptStream calls in flight; Close waits for them.
 	addr        net.Addr
 	acceptCh    <-chan acceptResponse
 	closeCh     chan struct{}
@@ -84,7 +85,11 @@ func (sl *virtualStreamListener) AcceptStream() (transport.StreamConn, error) {
 	vgate("A1")
 	sl.mu.Lock()
 	acceptCh := sl.acceptCh
+	// Close waits for the calls in flight: once it has returned, none of them can take a
+	// connection away from the listeners that are still open.
+	sl.inFlight.Add(1)
 	sl.mu.Unlock()
+	defer sl.inFlight.Done()
 
 	vgate("A2")
 	select {
@@ -108,6 +113,8 @@ func (sl *virtualStreamListener) Close() error {
 	}
 	sl.acceptCh = nil
 	close(sl.closeCh)
+	// The calls in flight are woken up by `closeCh`. Wait until they are gone.
+	sl.inFlight.Wait()
 	if sl.onCloseFunc != nil {
 		onCloseFunc := sl.onCloseFunc
 		sl.onCloseFunc = nil
@@ -133,7 +140,8 @@ type virtualPacketConn struct {
 	net.PacketConn
 	readCh chan readRequest
 
-	mu          sync.Mutex // Mutex to protect against race conditions when closing the connection.
+	mu          sync.Mutex     // Mutex to protect against race conditions when closing the connection.
+	inFlight    sync.WaitGroup // The ReadFrom calls in flight; Close waits for them.
 	closeCh     chan struct{}
 	onCloseFunc OnCloseFunc
 }
@@ -147,11 +155,17 @@ func (pc *virtualPacketConn) ReadFrom(p []byte) (int, net.Addr, error) {
 
 	vgate("A1")
 	// A closed connection must not take a packet away from the connections that are still open.
+	// Close waits for the calls in flight, so none of them can do so after it has returned.
+	pc.mu.Lock()
 	select {
 	case <-pc.closeCh:
+		pc.mu.Unlock()
 		return 0, nil, net.ErrClosed
 	default:
 	}
+	pc.inFlight.Add(1)
+	pc.mu.Unlock()
+	defer pc.inFlight.Done()
 	vgate("A2")
 	select {
 	case pc.readCh <- readRequest{
@@ -174,6 +188,8 @@ func (pc *virtualPacketConn) Close() error {
 	defer pc.mu.Unlock()
 
 	close(pc.closeCh)
+	// The calls in flight are woken up by `closeCh`. Wait until they are gone.
+	pc.inFlight.Wait()
 	if pc.onCloseFunc != nil {
 		onCloseFunc := pc.onCloseFunc
 		pc.onCloseFunc = nil
